@@ -62,6 +62,21 @@ _BASE = re.compile(r"^(len:|\*|src:)?_(\d+)")
 NEG = {"Lt": "Ge", "Ge": "Lt", "Gt": "Le", "Le": "Gt", "Eq": "Ne", "Ne": "Eq"}
 
 
+class _Origin(dict):
+    """origin map; a clone that is later handed as `&mut Vec` to an unmodelled callee (dedup, retain, truncate, push ...)
+    no longer stands for "the same elements as its source" """
+
+    def __init__(self):
+        super().__init__()
+        self.cloned = set()
+        self.dead = set()
+
+    def get(self, k, d=None):
+        if k in self.dead:
+            return d
+        return super().get(k, d)
+
+
 class Obligation:
     __slots__ = ("bi", "kind", "what", "goals", "ok", "span", "snippet", "detail", "exp", "why", "unwrap_of", "failed",
                  "lifted")
@@ -97,7 +112,7 @@ class Analysis:
         self.ret_states = []
         self.final = False
         self.bases = {}
-        self.origin = {}       # local key -> the place its value was copied from (for layout sources)
+        self.origin = _Origin()  # local key -> the place its value was copied from (for layout sources)
         self.elem_index = {}   # element symbol -> index Lin within its slice
         self.elems = []        # single-byte reads (A10)
         self._elem_seen = set()
@@ -831,6 +846,8 @@ class Analyzer(Analysis):
                         self.kill(st, v2[1])
             return
         if v[0] == "ref" and len(v) > 2 and v[2]:
+            if v[1] in self.origin.cloned:
+                self.origin.dead.add(v[1])
             self.kill(st, v[1])
         elif v[0] == "slice":
             t = self.op_ty(a) if a is not None else None
@@ -1204,6 +1221,7 @@ class Analyzer(Analysis):
                 self.write(st, dest_key, None)
                 st.store["len:" + dest_key] = ("lin", self.length_of(st, src_k))
                 self.origin[dest_key] = self.origin.get(src_k, src_k)
+                self.origin.cloned.add(dest_key)
                 if self.final:
                     self.events.append(ev)
                 return
